@@ -1,0 +1,20 @@
+//go:build verif
+
+package gate
+
+import "go.minekube.com/gate/pkg/gate/config"
+
+// Export-only wrappers for the C36 check (JSON Merge Patch); no logic.
+
+// VerifApplyMergePatch calls applyMergePatch.
+func VerifApplyMergePatch(target, patch any) any { return applyMergePatch(target, patch) }
+
+// VerifMergeConfigPatch calls mergeConfigPatch.
+func VerifMergeConfigPatch(current *config.Config, patch string) (*config.Config, error) {
+	return mergeConfigPatch(current, patch)
+}
+
+// VerifCanonicalConfigJSON calls canonicalConfigJSON.
+func VerifCanonicalConfigJSON(current *config.Config) ([]byte, error) {
+	return canonicalConfigJSON(current)
+}
